@@ -16,11 +16,12 @@
 //!   (Limits that end inside the fixed register prelude are only enumerated for
 //!   programs of length <= 1: the prelude is the same for every program.)
 //! * EMPTY: the empty script (special-cased by the VM).
-//! * LIMIT: a LOG loop producing N receipts, N in 65,531..=65,534 (thorough: ..=65,535),
-//!   followed by every terminal sequence of length <= 1 (thorough 2) over {ret, rvrt,
-//!   invalid, log, call A, retd, store panic, tr}, with the full gas limit and with the
-//!   gas limits that stop execution at each of the last 6 instructions (out-of-gas
-//!   as terminal).
+//! * LIMIT: a LOG loop (log; subi; jnzb) producing N receipts, N in 65,531..=65,534
+//!   (thorough: 65,530..=65,535, two worlds), followed by every terminal sequence of
+//!   length <= 1 (thorough 2) over {ret, rvrt, invalid, log, call A, retd, store panic,
+//!   tr}, run with the full gas limit; out-of-gas as terminal: the programs with
+//!   terminal [log] (thorough: every terminal sequence of length <= 1) are also run with
+//!   the gas limits that stop execution at each of the last 3 (thorough 6) instructions.
 //!
 //! Every (world, program, gas limit) is executed three times: step by step
 //! (`vmkit::step`, fresh VM), end to end with `Interpreter::transact` (fresh VM) and
@@ -675,6 +676,8 @@ struct Acc {
     fps: HashSet<u64>,
     outcomes: BTreeMap<String, u64>,
     by_receipt_kind: [u64; 13],
+    /// key -> (what, case, occurrences); reported in enumeration order by `merge`
+    viols: BTreeMap<String, (String, Value, u64)>,
 }
 
 /// One (world, script, gas limit): three executions + all clauses.
@@ -696,18 +699,13 @@ fn check_run(
     } else {
         Some(sr.unwrap_or_else(|| stepwise(&wi.w, script, gas, false)))
     };
-    if std::env::var("C28_TIMING").is_ok() { eprintln!("TIMING stepwise done at {:?}", std::time::SystemTime::now()); }
     let expected = sr.as_ref().and_then(|s| s.class());
     if let Some(s) = &sr {
         v.extend(s.monitor.iter().cloned());
         acc.max_steps = acc.max_steps.max(s.steps);
     }
-    let t0 = std::time::Instant::now();
     let ir = interp_run(&wi.w, script, gas);
-    let t1 = std::time::Instant::now();
     let (cr, after) = client_run(&wi.w, script, gas);
-    let t2 = std::time::Instant::now();
-    if std::env::var("C28_TIMING").is_ok() { eprintln!("TIMING interp {:?} client {:?}", t1-t0, t2-t1); }
     acc.evals += 1;
 
     let label;
@@ -772,16 +770,47 @@ fn check_run(
             label = format!("incomplete|{}", e.chars().take(48).collect::<String>());
         }
     }
-    if std::env::var("C28_TIMING").is_ok() { eprintln!("TIMING oracle {:?}", t2.elapsed()); }
     *acc.outcomes.entry(label).or_insert(0) += 1;
     if !v.is_empty() {
         let c = case();
         let mut seen = BTreeSet::new();
         for (k, what) in v {
             if seen.insert(k.clone()) {
-                ctx.violation(k, format!("world {} gas_limit {gas}: {what}", wi.name), c.clone());
+                if ctx.replaying {
+                    ctx.violation(k, format!("world {} gas_limit {gas}: {what}", wi.name), c.clone());
+                } else {
+                    acc.viols
+                        .entry(k)
+                        .or_insert_with(|| (format!("world {} gas_limit {gas}: {what}", wi.name), c.clone(), 0))
+                        .2 += 1;
+                }
             }
         }
+    }
+}
+
+/// Written-out observation for the evidence samples.
+fn describe(wi: &WorldInfo, script: &[u8], gas: u64) -> Value {
+    const NAMES: [&str; 13] = [
+        "Call", "Return", "ReturnData", "Panic", "Revert", "Log", "LogData", "Transfer", "TransferOut", "ScriptResult",
+        "MessageOut", "Mint", "Burn",
+    ];
+    match interp_run(&wi.w, script, gas) {
+        Ok(d) => {
+            let n = d.receipts.len();
+            let tail: Vec<&str> = d.receipts[n.saturating_sub(12)..].iter().map(|r| NAMES[kind(r) as usize]).collect();
+            let outs: Vec<String> = d
+                .tx
+                .outputs()
+                .iter()
+                .filter(|o| o.is_variable() || o.is_change())
+                .map(|o| format!("{o:?}"))
+                .collect();
+            json!({"state": format!("{:?}", d.state), "receipts": n, "last_receipt_kinds": tail,
+                "script_result": format!("{:?}", d.receipts.last()), "change_and_variable_outputs": outs,
+                "receipts_root": hex::encode(<[u8; 32]>::from(*d.tx.receipts_root()))})
+        }
+        Err(e) => json!({"incomplete": e}),
     }
 }
 
@@ -808,6 +837,9 @@ fn fault_limits(charges: &[u64], from: u64, g0: u64) -> Vec<u64> {
     set.into_iter().collect()
 }
 
+/// Runs the program with the full gas limit (step-wise run recorded) and returns the
+/// gas limits of its fault points; they are executed here unless `defer` is set.
+#[allow(clippy::too_many_arguments)]
 fn run_program(
     ctx: &Ctx,
     wi: &WorldInfo,
@@ -817,9 +849,10 @@ fn run_program(
     // Some(n): only the fault points of the last n instructions
     last_only: Option<usize>,
     skip_prelude_faults: bool,
+    defer: bool,
     case: &dyn Fn(u64) -> Value,
     acc: &mut Acc,
-) {
+) -> Vec<u64> {
     let script = script_bytes(&wi.w, body);
     let full = stepwise(&wi.w, &script, g0, true);
     let charges = full.charges.clone();
@@ -840,16 +873,26 @@ fn run_program(
         }
     };
     acc.programs += 1;
-    acc.fault_points += limits.len() as u64;
     check_run(ctx, wi, wix, &script, g0, Some(full), &|| case(g0), acc);
-    for g in limits {
-        check_run(ctx, wi, wix, &script, g, None, &|| case(g), acc);
+    if !defer {
+        acc.fault_points += limits.len() as u64;
+        for g in &limits {
+            check_run(ctx, wi, wix, &script, *g, None, &|| case(*g), acc);
+        }
     }
+    limits
 }
 
 // ------------------------------------------------------------------ explore / replay
 
 fn merge(ctx: &Ctx, tot: &mut Acc, a: Acc) {
+    // chunks are merged in index order, so the recorded case of every key is the
+    // first (= shortest) one of the enumeration
+    for (k, (what, case, n)) in a.viols {
+        for _ in 0..n {
+            ctx.violation(k.clone(), what.clone(), case.clone());
+        }
+    }
     ctx.evals(a.evals);
     ctx.fps_merge(a.fps);
     ctx.outcomes_merge(&a.outcomes);
@@ -905,59 +948,6 @@ fn explore(ctx: &Ctx) {
         merge(ctx, &mut tot, acc);
     }
 
-    // ---- LIMIT (long runs first: they dominate the tail latency)
-    {
-        let ns: Vec<u32> = ctx.pick((65_531..=65_534).collect(), (65_530..=65_535).collect());
-        let tk = ctx.pick(1u32, 2u32);
-        let lim_worlds: Vec<usize> = ctx.pick(vec![0], vec![0, 1]);
-        let nt = space::seq_count(term.len() as u64, tk);
-        let total = ns.len() as u64 * nt * lim_worlds.len() as u64;
-        ctx.set("limit_programs", json!({"log_counts": ns, "terminal_len": tk, "worlds": lim_worlds, "programs": total, "fault_points": "gas limits ending at each of the last 6 instructions"}));
-        let mut skipped = 0u64;
-        space::par_chunks(
-            total,
-            1,
-            Acc::default,
-            |i, acc| {
-                if ctx.out_of_time() {
-                    acc.incomplete += 1 << 32;
-                    return
-                }
-                let wix = lim_worlds[(i % lim_worlds.len() as u64) as usize];
-                let j = i / lim_worlds.len() as u64;
-                let n = ns[(j % ns.len() as u64) as usize];
-                let t = space::seq_at(term.len() as u64, tk, j / ns.len() as u64);
-                let body = limit_words(n, &seq_words(&term, &t));
-                let names = seq_names(&term, &t);
-                let wi = &ws[wix];
-                run_program(
-                    ctx,
-                    wi,
-                    wix,
-                    &body,
-                    G0_LIMIT,
-                    Some(6),
-                    true,
-                    &|g| json!({"kind": "limit", "world": wix, "n": n, "term": t, "names": names, "gas": g}),
-                    acc,
-                );
-                if acc.programs == 1 && n == 65_533 && t.len() == 1 && ctx.want_sample() && (t[0] == 0 || t[0] == 4) {
-                    ctx.sample(json!({"kind": "limit", "world": wi.name, "log_iterations": n, "terminal": names, "gas_limits": "full + last 6 instructions", "outcomes": acc.outcomes}));
-                }
-            },
-            |mut a| {
-                skipped += a.incomplete >> 32;
-                a.incomplete &= (1 << 32) - 1;
-                merge(ctx, &mut tot, a)
-            },
-        );
-        if skipped > 0 {
-            ctx.cap(format!("time budget: {skipped} receipt-limit programs not run"));
-        }
-    }
-    let limit_programs = tot.programs;
-    let t_limit = ctx.elapsed();
-
     // ---- SEQ
     {
         let per_world = space::seq_count(alpha.len() as u64, k);
@@ -988,6 +978,7 @@ fn explore(ctx: &Ctx) {
                     wi.g0,
                     None,
                     seq.len() > 1,
+                    false,
                     &|g| json!({"kind": "seq", "world": wix, "seq": seq, "names": names, "gas": g}),
                     acc,
                 );
@@ -999,7 +990,8 @@ fn explore(ctx: &Ctx) {
                     _ => false,
                 };
                 if interesting {
-                    ctx.sample(json!({"kind": "seq", "world": wi.name, "program": names, "gas_limits_run": acc.evals - before}));
+                    ctx.sample(json!({"kind": "seq", "world": wi.name, "program": names, "gas_limits_run": acc.evals - before,
+                        "with_full_gas": describe(wi, &script_bytes(&wi.w, &body), wi.g0)}));
                 }
             },
             |mut a| {
@@ -1011,9 +1003,112 @@ fn explore(ctx: &Ctx) {
         if skipped > 0 {
             ctx.cap(format!("time budget: {skipped} of {total} SEQ programs not run"));
         }
-        ctx.set("seq_programs", json!({"per_world": per_world, "total": total, "run": tot.programs - limit_programs}));
+        ctx.set("seq_programs", json!({"per_world": per_world, "total": total, "run": tot.programs}));
     }
-    ctx.set("phase_wall_s", json!({"empty+limit": t_limit, "seq": ctx.elapsed() - t_limit}));
+    let seq_programs = tot.programs;
+    let t_seq = ctx.elapsed();
+
+    // ---- LIMIT
+    {
+        let ns: Vec<u32> = ctx.pick((65_531..=65_534).collect(), (65_530..=65_535).collect());
+        let tk = ctx.pick(1u32, 2u32);
+        let lim_worlds: Vec<usize> = ctx.pick(vec![0], vec![0, 1]);
+        let nt = space::seq_count(term.len() as u64, tk);
+        let total = ns.len() as u64 * nt * lim_worlds.len() as u64;
+        // out-of-gas as terminal: the gas limits that end execution at each of the last
+        // `fault_tail` instructions; quick: only after the terminal [log], thorough:
+        // after every terminal sequence of length <= 1
+        let fault_tail = ctx.pick(3usize, 6usize);
+        let decode = |i: u64| {
+            let wix = lim_worlds[(i % lim_worlds.len() as u64) as usize];
+            let j = i / lim_worlds.len() as u64;
+            let n = ns[(j % ns.len() as u64) as usize];
+            let t = space::seq_at(term.len() as u64, tk, j / ns.len() as u64);
+            (wix, n, t)
+        };
+        let wants_faults = |t: &[u64]| if ctx.quick() { t == [3] } else { t.len() <= 1 };
+        let mut skipped = 0u64;
+        let mut oog_cases: Vec<(u64, u64)> = Vec::new();
+        space::par_chunks(
+            total,
+            1,
+            || (Acc::default(), Vec::new()),
+            |i, (acc, cases): &mut (Acc, Vec<(u64, u64)>)| {
+                if ctx.out_of_time() {
+                    acc.incomplete += 1 << 32;
+                    return
+                }
+                let (wix, n, t) = decode(i);
+                let body = limit_words(n, &seq_words(&term, &t));
+                let names = seq_names(&term, &t);
+                let wi = &ws[wix];
+                let limits = run_program(
+                    ctx,
+                    wi,
+                    wix,
+                    &body,
+                    G0_LIMIT,
+                    Some(fault_tail),
+                    true,
+                    true,
+                    &|g| json!({"kind": "limit", "world": wix, "n": n, "term": t, "names": names, "gas": g}),
+                    acc,
+                );
+                if wants_faults(&t) {
+                    cases.extend(limits.into_iter().map(|g| (i, g)));
+                }
+                if n == 65_533 && t.len() <= 1 && ctx.want_sample() && (t.is_empty() || t[0] == 4) {
+                    ctx.sample(json!({"kind": "limit", "world": wi.name, "log_iterations": n, "terminal": names,
+                        "with_full_gas": describe(wi, &script_bytes(&wi.w, &body), G0_LIMIT)}));
+                }
+            },
+            |(mut a, c)| {
+                skipped += a.incomplete >> 32;
+                a.incomplete &= (1 << 32) - 1;
+                oog_cases.extend(c);
+                merge(ctx, &mut tot, a)
+            },
+        );
+        space::par_chunks(
+            oog_cases.len() as u64,
+            1,
+            Acc::default,
+            |c, acc| {
+                if ctx.out_of_time() {
+                    acc.incomplete += 1 << 32;
+                    return
+                }
+                let (i, g) = oog_cases[c as usize];
+                let (wix, n, t) = decode(i);
+                let body = limit_words(n, &seq_words(&term, &t));
+                let names = seq_names(&term, &t);
+                let wi = &ws[wix];
+                acc.fault_points += 1;
+                check_run(
+                    ctx,
+                    wi,
+                    wix,
+                    &script_bytes(&wi.w, &body),
+                    g,
+                    None,
+                    &|| json!({"kind": "limit", "world": wix, "n": n, "term": t, "names": names, "gas": g}),
+                    acc,
+                );
+            },
+            |mut a| {
+                skipped += a.incomplete >> 32;
+                a.incomplete &= (1 << 32) - 1;
+                merge(ctx, &mut tot, a)
+            },
+        );
+        ctx.set("limit_programs", json!({"log_counts": ns, "terminal_len": tk, "worlds": lim_worlds, "programs": total,
+            "run": tot.programs - seq_programs, "out_of_gas_runs": oog_cases.len(),
+            "fault_points": format!("gas limits ending at each of the last {fault_tail} instructions of {}", if ctx.quick() { "the programs with terminal [log]" } else { "the programs with a terminal sequence of length <= 1" })}));
+        if skipped > 0 {
+            ctx.cap(format!("time budget: {skipped} receipt-limit runs not executed"));
+        }
+    }
+    ctx.set("phase_wall_s", json!({"empty+seq": t_seq, "limit": ctx.elapsed() - t_seq}));
     ctx.set("programs", json!(tot.programs));
     ctx.set("fault_point_runs", json!(tot.fault_points));
     ctx.set("max_steps_of_one_run", json!(tot.max_steps));
